@@ -339,14 +339,27 @@ def gen_o_origin(rng, n):
         dim = rng.choice([2, 3, 4, 5])
         shape = rng.choice(SHAPES)
         cnt = int(np.prod(shape)) if shape else 1
-        yield {"dim": dim, "shape": shape, "k": [G.fball(rng, dim, 0.97) for _ in range(cnt)],
-               "scale": [rng.choice([-1, 1]) * rng.uniform(0.2, 5) for _ in range(cnt)], "fo": rng.random() < 0.5}
+        # G12 / G16: some members far from the centre (hyperbolic distance 8..16, given on the hyperboloid), mixed with ordinary ones
+        far = [rng.uniform(8, 16) if rng.random() < 0.2 else None for _ in range(cnt)]
+        yield {"dim": dim, "shape": shape, "k": [G.fball(rng, dim, 0.97) for _ in range(cnt)], "far": far,
+               "scale": [rng.choice([-1, 1]) * (10 ** rng.uniform(-9, 9) if rng.random() < 0.15 else rng.uniform(0.2, 5)) for _ in range(cnt)],
+               "fo": rng.random() < 0.5}
 
 
 def run_o_origin(inp):
     dim, shape = inp["dim"], tuple(inp["shape"])
     k = np.array(inp["k"]).reshape(shape + (dim,))
-    X = H.Point(k, model="klein").proj_data * np.array(inp["scale"]).reshape(shape + (1,))
+    X = np.array(H.Point(k, model="klein").proj_data, dtype=float)
+    far = inp.get("far") or [None] * int(np.prod(shape) if shape else 1)
+    Xf = X.reshape(-1, dim + 1).copy()
+    kf = k.reshape(-1, dim).copy()
+    for j, d in enumerate(far):
+        if d is not None:
+            u = kf[j] / np.linalg.norm(kf[j])
+            Xf[j] = np.concatenate([[math.cosh(d)], math.sinh(d) * u])
+            kf[j] = math.tanh(d) * u
+    k = kf.reshape(k.shape)
+    X = Xf.reshape(X.shape) * np.array(inp["scale"]).reshape(shape + (1,))
     P = H.Point(X.copy())
     M = P.origin_to(force_oriented=inp["fo"])
     o = H.Point.get_origin(dim, shape)
@@ -354,9 +367,10 @@ def run_o_origin(inp):
     kk = np.array(img.coords("klein"), dtype=float)
     m = np.array(M.proj_data, dtype=float)
     Jm = G.J(dim)
+    sc = np.maximum(1.0, np.abs(m).max(axis=(-1, -2))) ** 2        # per member: residual relative to the products formed
     return {"err": float(np.abs(kk - k).max()) if kk.shape == k.shape else float("inf"),
-            "res": float(np.abs(m @ Jm @ np.swapaxes(m, -1, -2) - Jm).max()),
-            "mindet": float(np.min(np.linalg.det(m)))}
+            "res": float((np.abs(m @ Jm @ np.swapaxes(m, -1, -2) - Jm).max(axis=(-1, -2)) / sc).max()),
+            "mindet": float(np.min(_orient(m)))}
 
 
 def judge_o_origin(inp, obs, lr):
@@ -423,10 +437,91 @@ def judge_o_tangent(inp, obs, lr):
     return None
 
 
+# ---- G16: composite tangent vectors of mixed kinds ------------------------------------------------------------------
+def _orient(m):
+    """orientation of an isometry matrix: determinant of the representative that preserves the upper sheet"""
+    m = np.asarray(m, float)
+    sgn = np.where(m[..., 0, 0] < 0, -1.0, 1.0)
+    return np.linalg.det(m) * sgn ** m.shape[-1]
+
+
+def gen_o_comptv(rng, n):
+    for _ in range(n):
+        dim = rng.choice([2, 2, 3, 4, 5])
+        # stacks of every small size, including exactly dim+1 members (a square table) and rank-2 stacks
+        shape = rng.choice([[2], [3], [4], [6], [dim + 1], [dim + 1], [2, 2], [2, 3], [1, 3]])
+        cnt = int(np.prod(shape))
+        yield {"dim": dim, "shape": shape, "a": [rand_tv(rng, dim) for _ in range(cnt)], "b": [rand_tv(rng, dim) for _ in range(cnt)],
+               "t": [rng.uniform(-3, 3) for _ in range(cnt)], "fo": rng.random() < 0.7}
+
+
+def _stack_tv(ds, shape, dim):
+    X = np.stack([np.array(H.Point(np.array(d["k"]), model="klein").proj_data, dtype=float) * d["sc"] for d in ds]).reshape(tuple(shape) + (dim + 1,))
+    V = np.stack([np.array(d["v"], dtype=float) for d in ds]).reshape(tuple(shape) + (dim + 1,))
+    return H.TangentVector(H.Point(X.copy()), V.copy())
+
+
+def run_o_comptv(inp):
+    dim, shape, fo = inp["dim"], inp["shape"], inp["fo"]
+    cnt = int(np.prod(shape))
+    A, B = _stack_tv(inp["a"], shape, dim), _stack_tv(inp["b"], shape, dim)
+    Mo = np.array(_stack_tv(inp["a"], shape, dim).origin_to(force_oriented=fo).proj_data, dtype=float)
+    Mi = np.array(A.isometry_to(B, force_oriented=fo).proj_data, dtype=float)
+    tt = np.array(inp["t"]).reshape(tuple(shape))
+    Xa = np.array(_stack_tv(inp["a"], shape, dim).normalized().point_along(tt).proj_data, dtype=float)
+    out = {"shapes": [list(Mo.shape), list(Mi.shape), list(Xa.shape)], "members": []}
+    if list(Mo.shape) != shape + [dim + 1, dim + 1] or list(Mi.shape) != shape + [dim + 1, dim + 1] or list(Xa.shape) != shape + [dim + 1]:
+        return out
+    Mo, Mi, Xa = Mo.reshape(cnt, dim + 1, dim + 1), Mi.reshape(cnt, dim + 1, dim + 1), Xa.reshape(cnt, dim + 1)
+    Jm = G.J(dim)
+    for i in range(cnt):
+        sa, sb = mk_tv(inp["a"][i]), mk_tv(inp["b"][i])
+        pa, va = _tv_state(sa)
+        pb, vb = _tv_state(sb)
+        so = np.array(mk_tv(inp["a"][i]).origin_to(force_oriented=fo).proj_data, dtype=float)
+        si = np.array(mk_tv(inp["a"][i]).isometry_to(mk_tv(inp["b"][i]), force_oriented=fo).proj_data, dtype=float)
+        sx = np.array(mk_tv(inp["a"][i]).normalized().point_along(inp["t"][i]).proj_data, dtype=float)
+        sc = 1 + float(np.abs(so).max()) ** 2 + float(np.abs(si).max()) ** 2
+        out["members"].append({
+            "form": float(max(np.abs(Mo[i] @ Jm @ Mo[i].T - Jm).max(), np.abs(Mi[i] @ Jm @ Mi[i].T - Jm).max()) / sc),
+            "origin_rows": G.same_tangent(Mo[i][0], Mo[i][1], pa, va, 1e-6),
+            "carries": G.same_tangent(pa @ Mi[i], va @ Mi[i], pb, vb, 1e-6 * sc),
+            "orient": [float(_orient(Mo[i])), float(_orient(Mi[i]))], "orient_single": [float(_orient(so)), float(_orient(si))],
+            # in H^2 the orientation-preserving isometry with these images is unique
+            "same_as_single": [float(min(np.abs(Mo[i] - so).max(), np.abs(Mo[i] + so).max()) / sc),
+                               float(min(np.abs(Mi[i] - si).max(), np.abs(Mi[i] + si).max()) / sc)],
+            "along": G.proj_equal(Xa[i], sx, 1e-7)})
+    return out
+
+
+def judge_o_comptv(inp, obs, lr):
+    tags = {"dim": inp["dim"], "shape": inp["shape"], "fo": inp["fo"], "square_table": inp["shape"] == [inp["dim"] + 1]}
+    if "exc" in obs:
+        return {"expected": "isometries for every member", "observed": obs, "tags": dict(tags, exc=obs["exc"])}
+    if not obs["members"]:
+        return {"expected": {"one answer per member, shape": inp["shape"]}, "observed": obs["shapes"], "tags": dict(tags, what="shape")}
+    for i, m in enumerate(obs["members"]):
+        if not (m["form"] <= 1e-8 and m["origin_rows"] and m["carries"]):
+            return {"expected": "member i: isometry; origin_to rows = (basepoint, direction); isometry_to carries member i of a to member i of b",
+                    "observed": dict(m, i=i), "tags": dict(tags, what="targets")}
+        if not m["along"]:
+            return {"expected": "point_along with an array of distances: member i as for the single tangent vector", "observed": dict(m, i=i), "tags": dict(tags, what="point_along")}
+        if inp["fo"] and not (m["orient"][0] > 0 and m["orient"][1] > 0):
+            return {"expected": "force_oriented=True: every member orientation preserving", "observed": dict(m, i=i), "tags": dict(tags, what="orientation")}
+        if inp["fo"] and inp["dim"] == 2 and not max(m["same_as_single"]) <= 1e-7:
+            return {"expected": "H^2, orientation forced: member i equals the answer for the single tangent vector", "observed": dict(m, i=i),
+                    "tags": dict(tags, what="member = single")}
+    return None
+
+
 def gen_o_along(rng, n):
     for _ in range(n):
         dim = rng.choice([2, 3, 4, 5])
-        yield {"dim": dim, "a": rand_tv(rng, dim), "b": rand_tv(rng, dim), "t1": G.rand_real(rng, -4, 4), "t2": G.rand_real(rng, -4, 4),
+        t1 = G.rand_real(rng, -4, 4)
+        if rng.random() < 0.15:
+            # G12: now and then distances up to 12, in double precision (tanh t is 1 in float32 from t = 9 on)
+            t1 = {"v": rng.uniform(4, 12) * rng.choice([-1, 1]), "pack": rng.choice(G.FLOAT_PACKS)}
+        yield {"dim": dim, "a": rand_tv(rng, dim), "b": rand_tv(rng, dim), "t1": t1, "t2": G.rand_real(rng, -4, 4),
                "q": G.fball(rng, dim, 0.95), "qs": rng.choice([-1, 1]) * rng.uniform(0.3, 3)}
 
 
@@ -481,7 +576,10 @@ def judge_o_along(inp, obs, lr):
     t1, t2 = G.val(inp["t1"]), G.val(inp["t2"])
     # a float32 distance carries 6e-8 relative error into tanh t, amplified by cosh^2 t in the distance
     f32 = G.is32(inp["t1"]) or G.is32(inp["t2"])
-    dtol = 1e-6 * (1 + abs(t1)) + (3e-7 * math.cosh(t1) ** 2 if G.is32(inp["t1"]) else 0.0)
+    # point_along goes through the Klein coordinate tanh t, whose distance from 1 is 2 e^(-2t): the pinned tree places the point
+    # with an error of about eps e^(2|t|) / 4 in the distance (measured 2e-5 at t = 12); 4e-15 e^(2|t|) is asked for
+    far = 4e-15 * math.exp(2 * abs(t1))
+    dtol = 1e-6 * (1 + abs(t1)) + (3e-7 * math.cosh(t1) ** 2 if G.is32(inp["t1"]) else 0.0) + far
     if not abs(obs["d1"] - abs(t1)) <= dtol:
         return {"expected": {"d(p, point_along(t))": abs(t1)}, "observed": obs["d1"],
                 "tags": {"what": "distance", "neg": t1 < 0, "pack": inp["t1"]["pack"] if isinstance(inp["t1"], dict) else "float",
@@ -490,7 +588,7 @@ def judge_o_along(inp, obs, lr):
         return {"expected": "point on the geodesic spanned by the tangent vector", "observed": obs["rank3"], "tags": {"what": "span"}}
     lhs = math.cosh(obs["c"])
     rhs = math.cosh(t1) * math.cosh(t2) - math.sinh(t1) * math.sinh(t2) * math.cos(obs["ang"])
-    if not abs(lhs - rhs) <= (1e-3 if f32 else 1e-6) * (1 + abs(rhs)):
+    if not abs(lhs - rhs) <= ((1e-3 if f32 else 1e-6) + far) * (1 + abs(rhs)):
         return {"expected": {"law of cosines rhs": rhs}, "observed": lhs, "tags": {"what": "law_of_cosines"}}
     if "ang_reps" in obs and not (max(abs(a - obs["ang"]) for a in obs["ang_reps"]) <= 1e-7 and abs(obs["ang_opp"] - (math.pi - obs["ang"])) <= 1e-7):
         return {"expected": {"angle independent of the representative (x,v) ~ (-x,-v); pi - angle for (x,v1),(-x,v2)": obs["ang"]},
@@ -862,8 +960,16 @@ def run_o_args(inp):
         p0, q0 = pdat.copy(), qdat.copy()
         P, Qp = H.Point(pdat), H.Point(qdat)
         if call == "origin_to_point":
-            r1 = np.array(P.origin_to().proj_data, dtype=float)
-            r2 = np.array(P.origin_to().proj_data, dtype=float)
+            # only row 0 (the image of the origin) and "is an isometry" are specified: the completion of the frame is free,
+            # and may differ between two calls (the stored representative is rescaled by the first one)
+            m1 = np.array(P.origin_to().proj_data, dtype=float)
+            m2 = np.array(P.origin_to().proj_data, dtype=float)
+            Jm = G.J(dim)
+            res = max(float(np.abs(m @ Jm @ m.T - Jm).max()) for m in (m1, m2))
+            r1 = m1[0] / np.linalg.norm(m1[0])
+            r2 = m2[0] / np.linalg.norm(m2[0]) * (1.0 if float(m1[0] @ m2[0]) > 0 else -1.0)
+            r1 = np.concatenate([r1, [0.0]])
+            r2 = np.concatenate([r2, [res]])
         else:
             r1 = np.array(P.unit_tangent_towards(Qp).vector, dtype=float).copy()
             r2 = np.array(P.unit_tangent_towards(Qp).vector, dtype=float).copy()
@@ -915,6 +1021,10 @@ CLAUSES = [
            budget={"quick": 150, "thorough": 5000}, what="origin -> point for float points (composite shapes, scaled representatives), isometry, orientation"),
     Clause("tangent_oracle", "oracle", gen_o_tangent, run_o_tangent, judge_o_tangent, site="hyperbolic.TangentVector.isometry_to",
            budget={"quick": 150, "thorough": 5000}, what="base tangent -> positive multiple; isometry_to carries basepoint and direction"),
+    Clause("composite_tangent_oracle", "oracle", gen_o_comptv, run_o_comptv, judge_o_comptv, site="hyperbolic.TangentVector.origin_to",
+           budget={"quick": 80, "thorough": 3000},
+           what="stacks of tangent vectors of mixed kinds (both sheets, extreme scales; 2-6 members, exactly dim+1 members, rank-2 stacks): member i of "
+                "origin_to / isometry_to / point_along(array) hits its own targets, is orientation preserving when forced, and in H^2 equals the single answer"),
     Clause("along_oracle", "oracle", gen_o_along, run_o_along, judge_o_along, site="hyperbolic.TangentVector.point_along",
            budget={"quick": 200, "thorough": 8000}, what="|t| along a unit tangent (both signs), on the geodesic, law of cosines, towards q reaches q"),
     Clause("surface_polygon_oracle", "oracle", gen_o_surface, run_o_surface, judge_o_surface, site="hyperbolic.Polygon.regular_surface_polygon",
